@@ -478,16 +478,57 @@ def oracle_upload_seq(inp):
     return run_history(inp['calls'])
 
 
-def image_history(calls, each=None):
-    """several images parsed in one process (same file twice, different files)"""
+def expected_version(spec):
+    """firmware version of the first upload record of the encoded image, or None"""
+    for a in spec['actions']:
+        if a['type'] == 2:
+            v = a['version']
+            return (v['major'], v['minor'], v['aux'])
+    return None
+
+
+def image_history(calls, each=None, kept=None):
+    """Image operations in ONE process, in the given order.  A call is a spec (= parse it) or
+    {'op': 'parse' | 'version', 'spec': spec}: UpgradeImage(file) / Hpm.get_upgrade_version_from_file(file).
+    Every result is judged by the independent reading of the format; every image object obtained earlier
+    is kept and judged AGAIN after each later call (an earlier result must not change)."""
+    hpm = _hpm()
     verdict = None
-    for n, spec in enumerate(calls):
-        img = attempt(lambda: parse_file(enc_image(spec), 'seq'))
-        if each:
-            each(n, spec, img)
-        r = judge_image(spec, img)
+    objs = []          # (index of the call, spec, image object)
+
+    def bad(n, r, how=''):
+        nonlocal verdict
         if r and verdict is None:
-            verdict = ('UpgradeImage:call-depends-on-earlier-calls', 'image %d of the history: %s [%s]' % (n, r[1], r[0]))
+            verdict = ('UpgradeImage:call-depends-on-earlier-calls', 'call %d of the history%s: %s [%s]' % (n, how, r[1], r[0]))
+    for n, c in enumerate(calls):
+        op, spec = (c.get('op', 'parse'), c['spec']) if 'spec' in c else ('parse', c)
+        data = enc_image(spec)
+        if op == 'version':
+            SCRATCH.mkdir(parents=True, exist_ok=True)
+            p = SCRATCH / ('seqv-%d.hpm' % os.getpid())
+            p.write_bytes(data)
+            v = attempt(lambda: hpm.Hpm.get_upgrade_version_from_file(str(p)))
+            p.unlink()
+            if each:
+                each(n, 'version', spec, v)
+            if isinstance(v, Exception):
+                bad(n, ('get_upgrade_version_from_file:raises', 'raised %s' % type(v).__name__))
+            else:
+                got = None if v is None else (v.major, v.minor, bytes(getattr(v, 'auxiliary', b'')).hex())
+                if got != expected_version(spec):
+                    bad(n, ('get_upgrade_version_from_file:version', 'get_upgrade_version_from_file returned %r, the image\'s first '
+                            'upload record has %r' % (got, expected_version(spec))))
+        else:
+            img = attempt(lambda: parse_file(data, 'seq'))
+            if each:
+                each(n, 'parse', spec, img)
+            bad(n, judge_image(spec, img))
+            objs.append((n, spec, img))
+        # kept-object recheck: what earlier calls returned is still right
+        for (m, sp, im) in objs[:-1] if op != 'version' else objs:
+            bad(n, judge_image(sp, im), ' (image object of call %d re-inspected)' % m)
+    if kept is not None:
+        kept.extend(objs)
     return verdict
 
 
@@ -524,11 +565,19 @@ def run(ctx):
         terms.append(term)
         meta.append(info)
 
+    suspects = {}     # key -> [(message, replay)]: fails here, holds from a clean start = depends on earlier calls
+
     def oracle(name, inp):
         r = ORACLES[name](inp)
         res.evaluations += 1
-        if r and r[0] not in fails:
-            fails[r[0]] = C.Violation(key=r[0], what=r[1], replay={'oracle': name, 'input': inp})
+        if r and r[0] not in fails and len(suspects.get(r[0], ())) < 3:
+            rep = {'oracle': name, 'input': inp}
+            # a single-call replay must reproduce from a clean start; if it does not, the failure is
+            # history dependence of the implementation and the history stages have to find the sequence
+            if not name.endswith('_seq') and C.holds_in_fresh_process('C18', rep):
+                suspects.setdefault(r[0], []).append((r[1], rep))
+            else:
+                fails[r[0]] = C.Violation(key=r[0], what=r[1], replay=rep)
 
     # ------------------------------------------------------------------ images
     # VersionField on every minor byte, both field lengths
@@ -596,27 +645,33 @@ def run(ctx):
     if not q:
         image_case(vec, 'image-vector', 'firmware.hpm')
     # the vector against the independent reading of the format: re-encoding its fields gives the file
-    h = img.header
-    up = img.actions[1]
-    vspec = {'header': {'device_id': h.device_id, 'manufacturer_id': h.manufacturer_id, 'product_id': h.product_id,
-                        'time': h.time, 'capabilities': h.capabilities, 'components': sum(1 << i for i in h.components),
-                        'selftest_timeout': h.selftest_timeout, 'rollback_timeout': h.rollback_timeout,
-                        'inaccessibility_timeout': h.inaccessibility_timeout,
-                        'earliest_major': h.earliest_compatible_revision.major,
-                        'earliest_minor': h.earliest_compatible_revision.minor,
-                        'firmware_revision': {'major': h.firmware_revision.major, 'minor': h.firmware_revision.minor,
-                                              'aux': bytes(h.firmware_revision.auxiliary).hex()}, 'oem': ''},
-             'actions': [{'type': img.actions[0].action_type, 'components': img.actions[0].components},
-                         {'type': 2, 'components': up.components,
-                          'version': {'major': up.firmware_version.major, 'minor': up.firmware_version.minor,
-                                      'aux': bytes(up.firmware_version.auxiliary).hex()},
-                          'description': up.firmware_description_string.encode('latin-1').hex(),
-                          'firmware': bytes(up.firmware_image_data).hex()}]}
-    res.evaluations += 1
-    if enc_image(vspec) != vec:
-        fails['vector:encoder-disagrees'] = C.Violation(
-            key='vector:encoder-disagrees', what='the independent encoder does not reproduce tests/hpm_bin/firmware.hpm '
-            'from the fields the implementation reads out of it', replay={'oracle': 'image', 'input': vspec})
+    try:
+        h = img.header
+        up = img.actions[1]
+        assert len(img.actions) == 2 and hasattr(up, 'firmware_image_data')
+        vspec = {'header': {'device_id': h.device_id, 'manufacturer_id': h.manufacturer_id, 'product_id': h.product_id,
+                            'time': h.time, 'capabilities': h.capabilities, 'components': sum(1 << i for i in h.components),
+                            'selftest_timeout': h.selftest_timeout, 'rollback_timeout': h.rollback_timeout,
+                            'inaccessibility_timeout': h.inaccessibility_timeout,
+                            'earliest_major': h.earliest_compatible_revision.major,
+                            'earliest_minor': h.earliest_compatible_revision.minor,
+                            'firmware_revision': {'major': h.firmware_revision.major, 'minor': h.firmware_revision.minor,
+                                                  'aux': bytes(h.firmware_revision.auxiliary).hex()}, 'oem': ''},
+                 'actions': [{'type': img.actions[0].action_type, 'components': img.actions[0].components},
+                             {'type': 2, 'components': up.components,
+                              'version': {'major': up.firmware_version.major, 'minor': up.firmware_version.minor,
+                                          'aux': bytes(up.firmware_version.auxiliary).hex()},
+                              'description': up.firmware_description_string.encode('latin-1').hex(),
+                              'firmware': bytes(up.firmware_image_data).hex()}]}
+        res.evaluations += 1
+        if enc_image(vspec) != vec:
+            fails['vector:encoder-disagrees'] = C.Violation(
+                key='vector:encoder-disagrees', what='the independent encoder does not reproduce tests/hpm_bin/firmware.hpm '
+                'from the fields the implementation reads out of it', replay={'oracle': 'image', 'input': vspec})
+    except Exception as e:  # noqa - the implementation returned something else than the vector's two records here
+        # (e.g. polluted by earlier parses): not a harness matter - force the correspondence to notice
+        add('false', ('vector-stage', 'unexpected parse result of firmware.hpm: %r' % (e,)))
+
     # malformed stream: truncations, bad minor bytes, unknown action types, random bytes
     mal = []
     for _ in range(25 if q else 300):
@@ -773,20 +828,52 @@ def run(ctx):
             r2 = run_history_fresh(seq) or r
             fails[r[0]] = C.Violation(key=r[0], what=r2[1] + ' [history of %d upload(s)]' % len(seq),
                                       replay={'oracle': 'upload_seq', 'input': {'calls': seq}})
-    # several images in one process: the same file twice, different files in between
-    ihist = [rand_spec(rng, fw_max=80) for _ in range(4 if q else 12)]
-    ihist = [ihist[0], ihist[0], ihist[1], ihist[0]] + ihist[2:] + [ihist[1]]
+    # several images in ONE process: OEM data 0 / 255 / 2 bytes, all record types, firmware 0 / 100 / 777 / 4096
+    # bytes, varied order, the same file twice, get_upgrade_version_from_file before and after opening, and
+    # every image object obtained earlier re-inspected after each later call
+    def hspec(oem_len, kinds):
+        sp = rand_spec(rng, oem_len=oem_len, nactions=len(kinds), fw_max=10)
+        for a, k in zip(sp['actions'], kinds):
+            a.clear()
+            a.update(type=2 if isinstance(k, int) else {'b': 0, 'p': 1}[k], components=rng.choice([1, 2, 0x80, 0xff, rng.randrange(1, 256)]))
+            if isinstance(k, int):
+                a.update(version=rand_version(rng), description=rand_description(rng), firmware=rand_bytes(rng, k).hex())
+        return sp
+    A = hspec(0, ['b', 'p', 100])
+    Bs = hspec(255, [0, 'b'])
+    Cs = hspec(2, ['p', 777, 'b', 4096])
+    Ds = hspec(0, ['b'])                       # no upload record: version None
+    Es = hspec(17, [rng.randrange(0, 300), rng.randrange(0, 300), 'p'])
+    P, V = (lambda sp: {'op': 'parse', 'spec': sp}), (lambda sp: {'op': 'version', 'spec': sp})
+    ihists = [
+        [V(A), P(A), V(A), P(Bs), V(Bs), V(A), P(A), P(Cs), V(Ds), P(Ds), V(Cs), P(Bs), V(A)],
+        [P(Cs), P(Cs), V(Ds), P(Es), V(Es), P(A), V(Cs)],
+    ]
+    for _ in range(2 if q else 15):
+        pool = [A, Bs, Ds, Es, hspec(rng.choice([0, 1, 255]), [rng.choice(['b', 'p', 0, 5, 100]) for _ in range(rng.randrange(1, 5))])]
+        ihists.append([rng.choice([P, P, V])(rng.choice(pool)) for _ in range(rng.randrange(4, 10))])
+    for ihist in ihists:
+        kept = []
 
-    def each_img(n, spec, img):
-        data = enc_image(spec)
-        add('chk_parse %s %s' % (C.c_hex(data), c_res(img, c_image)), ('image-history', n, len(data)))
-        D.add(('ihist', n, data), True, 'image-history-step')
-    r = image_history(ihist, each_img)
-    res.evaluations += len(ihist)
-    if r and r[0] not in fails:
-        seq = C.shrink_history('C18', 'image_seq', ihist) or ihist
-        fails[r[0]] = C.Violation(key=r[0], what=r[1] + ' [history of %d image(s)]' % len(seq),
-                                  replay={'oracle': 'image_seq', 'input': {'calls': seq}})
+        def each_img(n, op, spec, out):
+            data = enc_image(spec)
+            if op == 'parse':
+                add('chk_parse %s %s' % (C.c_hex(data), c_res(out, c_image)), ('image-history', n, len(data)))
+            else:
+                add('chk_version_from_file %s %s' % (C.c_hex(data), c_res(out, lambda v: C.c_opt(None if v is None else c_version(v)))),
+                    ('image-history-version', n, len(data)))
+            D.add(('ihist', n, op, data), True, 'image-history-step')
+        r = image_history(ihist, each_img, kept)
+        # the kept objects once more, as they are at the end of the history, against the model
+        for (m, sp, im) in kept:
+            add('chk_parse %s %s' % (C.c_hex(enc_image(sp)), c_res(im, c_image)), ('image-history-kept', m))
+        res.evaluations += len(ihist)
+        if r and r[0] not in fails:
+            seq = C.shrink_history('C18', 'image_seq', ihist) or ihist
+            ops = ', '.join('%s(image with %d record(s))' % ('UpgradeImage' if c.get('op', 'parse') == 'parse' else
+                                                             'get_upgrade_version_from_file', len(c['spec']['actions'])) for c in seq)
+            fails[r[0]] = C.Violation(key=r[0], what='the history %s, run from a clean start, ends with a wrong result; first seen in this '
+                                      'run as: %s' % (ops, r[1]), replay={'oracle': 'image_seq', 'input': {'calls': seq}})
 
     # ------------------------------------------------------------------ upgrade drivers
     U.stage(ctx, add, oracle, D, res)
@@ -810,9 +897,15 @@ def run(ctx):
                 'refusal position, lengths 0..6000 across the 256-block wrap with random plans, block sizes 1..255, default '
                 'arguments, transport faults; histories: 3 designed + random sequences of uploads (successful, in-progress, '
                 'refused at block k, transport time-out abort, wait time-out) on one Ipmi object and a second one created later, '
-                'and images parsed in a row (same file twice), every step compared with the stateless model and judged from block 0; '
+                'and image operations in a row (UpgradeImage / get_upgrade_version_from_file; OEM 0/2/255, all record types, firmware 0/100/777/4096; same file twice; kept objects re-inspected), every step compared with the stateless model and judged from block 0; '
                 'a failing history is confirmed and shrunk in fresh interpreters. distinct = distinct canonical inputs (all non-trivial)')
     pick = [i for i in (0, 600, len(terms) // 2, len(terms) - 1) if i < len(terms)]
     res.samples = [{'term': terms[i][:400], 'case': meta[i]} for i in pick]
+    if suspects and not any(k.endswith('call-depends-on-earlier-calls') for k in fails):
+        k, lst = sorted(suspects.items())[0]
+        fails['history-dependent:' + k] = C.Violation(
+            key='history-dependent:' + k, what='%s - only after earlier calls in the same process (holds from a clean start); '
+            'no failing history found by the history stages' % lst[0][0], replay=lst[0][1], found_input=False)
+    res.extra['history_dependent_single_call_failures'] = {k: len(v) for k, v in suspects.items()}
     res.oracle_failures = list(fails.values())
     return res
